@@ -8,8 +8,15 @@ spec -> code : the machine C12_Devices runs the stack / pop-stack / bubble devic
                every predicate of permuta.bisc.perm_properties; the "group" states the dihedral group.
 code -> spec : calls of the real code on larger random permutations, recorded as events and judged by
                Trace_C12 (one TLC step per event).
+Hardening probes (same judge, Trace_C12): permutations ending in  n 1  and their relatives at lengths 5-10 (n - 1
+               passes), inputs on both sides of the West-2 / West-3 and pass-count boundaries at lengths 5-8, k passes
+               chained on the objects the real code returned (PassChain), sessions in which one Perm object answers every
+               question twice, Simion-Schmidt on members / neighbours / non-members of both domains at every length
+               0-10 in positional and keyword form, family predicates on reported members and non-members at length
+               7-8 and on lengths 0-2, dihedral_group as keyword call and as two lazy listings alive at once.
 The definitions themselves are cross-checked once per run by LibSanity_Devices (known theorems as ASSUMEs).
 """
+import concurrent.futures
 import inspect
 import json
 
@@ -52,7 +59,7 @@ def _perm_result(x):
 def _guard(f):
     try:
         return f()
-    except Unrecordable:
+    except (Unrecordable, FormUnavailable):
         raise
     except Exception as e:  # pylint: disable=broad-except
         raise Unrecordable("raised " + type(e).__name__) from e
@@ -64,31 +71,104 @@ def _typed(x, typ):
     return x
 
 
+class FormUnavailable(Exception):
+    """A keyword form of a public function does not exist on this tree: reported as drift, never judged."""
+
+
+def _bound(f, **kw):
+    try:
+        inspect.signature(f).bind(**kw)
+    except TypeError as e:
+        raise FormUnavailable("%s: %s" % (getattr(f, "__name__", f), e)) from e
+    return f(**kw)
+
+
+# objects of a session: an event with a key "obj" is performed on ONE Perm object per key, kept between events; an event
+# with a key "keep" stores the Perm the real code returned under that key, so that a later event is performed on the very
+# object an earlier call produced
+_HELD = {}
+
+
+def subject(ev):
+    key = ev.get("obj")
+    if key is None:
+        return Perm(ev["p"])
+    o = _HELD.get(key)
+    if o is None or list(o) != list(ev["p"]):
+        o = _HELD[key] = Perm(ev["p"])
+    return o
+
+
+def _kept(ev, x):
+    if ev.get("keep") and isinstance(x, Perm):
+        _HELD[ev["keep"]] = x
+    return x
+
+
+def _ss_call(ev):
+    p = subject(ev)
+    form = ev.get("form", "")
+    if form == "kw":
+        return _bound(Bijections.simion_and_schmidt, perm=p, inverse=bool(ev["inv"]))
+    if form == "pos":
+        return Bijections.simion_and_schmidt(p, bool(ev["inv"]))
+    return Bijections.simion_and_schmidt(p, inverse=True) if ev["inv"] else Bijections.simion_and_schmidt(p)
+
+
+def _group_call(ev):
+    n, form = ev["n"], ev.get("form", "")
+    if form == "kw":
+        return list(_bound(dihedral_group, n=n))
+    if form == "in_turn":           # two lazy listings alive at once, advanced in turn; the second one is reported
+        g1, g2 = dihedral_group(n), dihedral_group(n)
+        o1, o2, live = [], [], [True, True]
+        while any(live):
+            for j, (g, o) in enumerate(((g1, o1), (g2, o2))):
+                if live[j]:
+                    x = next(g, None)
+                    if x is None:
+                        live[j] = False
+                    else:
+                        o.append(x)
+                        if n >= 3:
+                            perm_properties.dihedral(x)          # the predicate walks a third listing meanwhile
+        return o2 if ev.get("which", 2) == 2 else o1
+    return list(dihedral_group(n))
+
+
 def record(ev):
     """ev: {op, arguments}; returns the event completed with what the real code did."""
     op = ev["op"]
     ev = dict(ev)
     if op == "Pass":
-        ev["res"] = _guard(lambda: _perm_result(getattr(Perm(ev["p"]), SORT[ev["dev"]])()))
+        ev["res"] = _guard(lambda: _perm_result(_kept(ev, getattr(subject(ev), SORT[ev["dev"]])())))
+    elif op == "PassChain":
+        def chain():
+            x = subject(ev)
+            for _ in range(ev["k"]):
+                x = getattr(x, SORT[ev["dev"]])()
+                if not isinstance(x, Perm):
+                    break
+            return _perm_result(_kept(ev, x))
+        ev["res"] = _guard(chain)
     elif op == "Sortable":
-        ev["res"] = _typed(_guard(lambda: getattr(Perm(ev["p"]), SORTABLE[ev["dev"]])()), bool)
+        ev["res"] = _typed(_guard(lambda: getattr(subject(ev), SORTABLE[ev["dev"]])()), bool)
     elif op == "West":
-        ev["res"] = _typed(_guard(lambda: getattr(Perm(ev["p"]), WEST[ev["k"]])()), bool)
+        ev["res"] = _typed(_guard(lambda: getattr(subject(ev), WEST[ev["k"]])()), bool)
     elif op == "Count":
-        ev["res"] = _typed(_guard(lambda: getattr(Perm(ev["p"]), COUNT[ev["dev"]])()), int)
+        ev["res"] = _typed(_guard(lambda: getattr(subject(ev), COUNT[ev["dev"]])()), int)
     elif op == "SS":
         try:
-            got = Bijections.simion_and_schmidt(Perm(ev["p"]), inverse=True) if ev["inv"] else \
-                Bijections.simion_and_schmidt(Perm(ev["p"]))
-            ev.update(raised=False, exc="", res=_perm_result(got))
-        except Unrecordable:
+            got = _ss_call(ev)
+            ev.update(raised=False, exc="", res=_perm_result(_kept(ev, got)))
+        except (Unrecordable, FormUnavailable):
             raise
         except Exception as e:  # pylint: disable=broad-except
             ev.update(raised=True, exc=type(e).__name__, res=[])
     elif op == "Family":
-        ev["res"] = _typed(_guard(lambda: getattr(perm_properties, ev["name"])(Perm(ev["p"]))), bool)
+        ev["res"] = _typed(_guard(lambda: getattr(perm_properties, ev["name"])(subject(ev))), bool)
     elif op == "Group":
-        ev["res"] = _guard(lambda: [_perm_result(x) for x in dihedral_group(ev["n"])])
+        ev["res"] = _guard(lambda: [_perm_result(x) for x in _group_call(ev)])
     else:
         raise tlc.MachineryFailure("unknown event " + op)
     return ev
@@ -98,6 +178,9 @@ def observe(ctx, ev, clause):
     """record(), turning an exception / ill-typed value of the real code into a violation."""
     try:
         return record(ev)
+    except FormUnavailable as e:
+        ctx.drift("keyword form not available, not judged: %s" % e)
+        return None
     except Unrecordable as u:
         ctx.violation({"kind": "event", "event": ev}, clause, "a value of the documented kind", u.what)
         return None
@@ -278,6 +361,182 @@ def driver_events(ctx, rnd, nperm, lengths):
     return events
 
 
+# ---- hardening probes: structured inputs, pass-count boundaries, sessions on one object, argument forms, lazy listings ----
+# (input selection only; every event is judged by Trace_C12)
+def random_132_avoider(rnd, n, lo=0):
+    """L max R with every entry of L above every entry of R, both parts built the same way (the classical decomposition)."""
+    if n == 0:
+        return []
+    k = rnd.randrange(n)                         # length of L
+    right = random_132_avoider(rnd, n - 1 - k, lo)
+    left = random_132_avoider(rnd, k, lo + n - 1 - k)
+    return left + [lo + n - 1] + right
+
+
+def hard_events(ctx, rnd, quick):
+    events = []
+
+    def add(ev, clause="NoException"):
+        got = observe(ctx, ev, clause)
+        if got is not None:
+            events.append(got)
+        return got
+
+    def devices(p, west=True):
+        for dev in ("stack", "pop", "bubble", "quick"):
+            add({"op": "Pass", "dev": dev, "p": p})
+            add({"op": "Sortable", "dev": dev, "p": p})
+        for dev in ("stack", "pop"):
+            add({"op": "Count", "dev": dev, "p": p})
+        if west:
+            for k in (2, 3):
+                add({"op": "West", "k": k, "p": p})
+
+    # 1. families with a known number of passes: 2 3 .. n 1 and other permutations ending in  n 1  (n - 1 stack passes),
+    #    n 1 2 .. n-1, reversals, rotations; lengths 5..10
+    for n in range(5, 11):
+        fam = [list(range(1, n)) + [0], [n - 1] + list(range(n - 1)), list(range(n - 1, -1, -1)), list(range(n)),
+               list(range(1, n - 1)) + [n - 1, 0], list(range(n - 2, 0, -1)) + [n - 1, 0]]
+        for _ in range(2 if quick else 6):
+            mid = list(range(1, n - 1))
+            rnd.shuffle(mid)
+            fam.append(mid + [n - 1, 0])                      # ... n 1
+            fam.append([n - 1, 0] + mid)                      # n 1 ...
+        for p in fam:
+            devices(p)
+            add({"op": "PassChain", "dev": "stack", "p": p, "k": n - 2})
+            add({"op": "PassChain", "dev": "stack", "p": p, "k": n - 1})
+    # 2. boundaries of West-2 / West-3 and of the counts at lengths 5..8: buckets by the number of passes the code reports
+    #    (selection only: a wrong report only changes which inputs are asked)
+    for n in (5, 6, 7, 8):
+        buckets = {}
+        for _ in range(400 if quick else 3000):
+            q = util.rand_perm(rnd, n)
+            st, c = util.call(Perm(q).count_stack_sorts)
+            if st == "ok" and isinstance(c, int) and len(buckets.setdefault(("s", c), [])) < (3 if quick else 12):
+                buckets[("s", c)].append(q)
+            st, c = util.call(Perm(q).count_pop_stack_sorts)
+            if st == "ok" and isinstance(c, int) and len(buckets.setdefault(("p", c), [])) < (2 if quick else 8):
+                buckets[("p", c)].append(q)
+        for (kind, c), qs in sorted(buckets.items()):
+            for q in qs:
+                p = list(q)
+                if kind == "s":
+                    add({"op": "Count", "dev": "stack", "p": p})
+                    for k in (2, 3):
+                        add({"op": "West", "k": k, "p": p})
+                    add({"op": "PassChain", "dev": "stack", "p": p, "k": max(c - 1, 0)})
+                    add({"op": "PassChain", "dev": "stack", "p": p, "k": c})
+                else:
+                    add({"op": "Count", "dev": "pop", "p": p})
+                    add({"op": "PassChain", "dev": "pop", "p": p, "k": max(c - 1, 0)})
+                    add({"op": "PassChain", "dev": "pop", "p": p, "k": c})
+    # 3. one object asked repeatedly, and operators applied to the very objects earlier calls returned
+    for sidx in range(6 if quick else 40):
+        n = rnd.choice([6, 7, 8, 9])
+        p = list(util.rand_perm(rnd, n)) if sidx % 2 else list(range(1, n - 1)) + [n - 1, 0]
+        key = "c12s%d" % sidx
+        asks = []
+        for dev in ("stack", "pop", "bubble", "quick"):
+            asks += [{"op": "Pass", "dev": dev, "p": p, "obj": key, "keep": "%s-%s" % (key, dev)}, {"op": "Sortable", "dev": dev, "p": p, "obj": key}]
+        asks += [{"op": "Count", "dev": "stack", "p": p, "obj": key}, {"op": "Count", "dev": "pop", "p": p, "obj": key},
+                 {"op": "West", "k": 2, "p": p, "obj": key}, {"op": "West", "k": 3, "p": p, "obj": key},
+                 {"op": "SS", "inv": False, "p": p, "obj": key}, {"op": "SS", "inv": True, "p": p, "obj": key, "form": "kw"}]
+        if n <= 8:
+            asks += [{"op": "Family", "name": nm, "p": p, "obj": key} for nm in rnd.sample(FAMILIES, 4)]
+        order = asks + asks
+        rnd.shuffle(order)
+        outs = {}
+        for ev in order:
+            got = add(ev)
+            if got is not None and "keep" in ev:
+                outs[ev["dev"]] = got["res"]
+        for dev, q in sorted(outs.items()):          # the returned objects themselves as inputs
+            kept = "%s-%s" % (key, dev)
+            add({"op": "Pass", "dev": dev, "p": q, "obj": kept})
+            add({"op": "Sortable", "dev": dev, "p": q, "obj": kept})
+            if dev in COUNT:
+                add({"op": "Count", "dev": dev, "p": q, "obj": kept})
+            add({"op": "Pass", "dev": "stack", "p": q, "obj": kept})
+    # 4. Simion-Schmidt: members of both domains at length 8-10 in both directions on the objects returned, near-members
+    #    and non-members at every length
+    for n in range(0, 11):
+        members = []
+        for _ in range(3 if quick else 12):
+            b = random_132_avoider(rnd, n)
+            members.append((True, b))
+            if n <= 9:
+                a = sample_where(rnd, n, lis_at_most_2, tries=1500)
+                if a is not None:
+                    members.append((False, list(a)))
+        members.append((True, list(range(n - 1, -1, -1))))
+        members.append((False, list(range(n - 1, -1, -1))))
+        members.append((True, list(range(n))))                 # the identity avoids 132
+        for j, (inv, p) in enumerate(members):
+            key = "ss%d-%d" % (n, j)
+            got = add({"op": "SS", "inv": inv, "p": p, "form": ("", "kw", "pos")[j % 3], "keep": key})
+            if got is not None and not got["raised"]:
+                add({"op": "SS", "inv": not inv, "p": got["res"], "obj": key})          # back, on the returned object
+                add({"op": "SS", "inv": inv, "p": got["res"], "obj": key})              # and the same direction again (mostly outside)
+            if n >= 3:
+                q = list(p)                                        # one adjacent transposition away: mostly outside the domain
+                i = rnd.randrange(n - 1)
+                q[i], q[i + 1] = q[i + 1], q[i]
+                add({"op": "SS", "inv": inv, "p": q, "form": ("kw", "", "pos")[j % 3]})
+        for _ in range(2 if quick else 10):                        # arbitrary permutations: outside both domains from length 5 on
+            q = list(util.rand_perm(rnd, n))
+            add({"op": "SS", "inv": False, "p": q})
+            add({"op": "SS", "inv": True, "p": q, "form": "pos"})
+    # 5. family predicates at length 7-8: members and non-members as the code reports them (selection only), plus
+    #    constructed members of the thin families and their neighbours
+    for n in (7, 8):
+        pool = [list(util.rand_perm(rnd, n)) for _ in range(150 if quick else 1200)]
+        pool += [random_132_avoider(rnd, n) for _ in range(20)]
+        for name in FAMILIES:
+            f = getattr(perm_properties, name, None)
+            if f is None:
+                continue
+            want = {True: 3 if quick else 10, False: 2 if quick else 6}
+            for q in pool:
+                st, v = util.call(f, Perm(q))
+                if st == "ok" and isinstance(v, bool) and want[v] > 0:
+                    want[v] -= 1
+                    add({"op": "Family", "name": name, "p": q})
+                if not any(want.values()):
+                    break
+        for k in range(0, n, 3):
+            rot = [(i + k) % n for i in range(n)]
+            refl = [(k - i) % n for i in range(n)]
+            for q in (rot, refl, rot[:2][::-1] + rot[2:], refl[:-2] + refl[-2:][::-1]):
+                for name in ("dihedral", "in_alternating_group", "simsun", "baxter"):
+                    add({"op": "Family", "name": name, "p": q})
+    for n in (0, 1, 2):
+        for q in util.perms_of(n):
+            for name in FAMILIES:
+                if name == "in_alternating_group" and n == 2:
+                    continue                                    # known finding, judged in the exhaustive part
+                add({"op": "Family", "name": name, "p": list(q), "obj": "tiny%d" % n})
+    # 6. dihedral_group: keyword form, asked twice, two lazy listings alive at once
+    for n in range(0, 11):
+        add({"op": "Group", "n": n, "form": "kw"})
+        add({"op": "Group", "n": n, "form": "in_turn", "which": 1 + n % 2})
+        add({"op": "Group", "n": n})
+    return events
+
+
+def validate_chunks(ctx, events, nchunks):
+    """Trace validation in several JVMs side by side (same acceptance test as util.validate_trace, which is used for each chunk)."""
+    chunks = [events[k::nchunks] for k in range(nchunks)]
+    first = util.validate_trace(ctx, "Trace_C12", chunks[0], ntraces=len(chunks[0]), timeout=3000)     # also demonstrates the binding
+    with concurrent.futures.ThreadPoolExecutor(max_workers=nchunks) as ex:
+        rest = list(ex.map(lambda ch: util.validate_trace(ctx, "Trace_C12", ch, ntraces=len(ch), timeout=3000), chunks[1:]))
+    verdict = []
+    for k, v in enumerate([first] + rest):
+        for b in v["verdict"]:
+            verdict.append({"i": (b["i"] - 1) * nchunks + k + 1, "clause": b["clause"]})
+    return {"verdict": verdict, "n": len(events)}
+
+
 def trace_verdicts(ctx, events, v, known):
     for b in v["verdict"]:
         ev = events[b["i"] - 1]
@@ -343,7 +602,10 @@ def run(ctx):
     # ---- 2. code -> spec ---------------------------------------------------------------------------------
     rnd = util.rng(ctx, 12)
     events = driver_events(ctx, rnd, 40 if quick else 400, [7, 8, 9, 10] if quick else [8, 9, 10, 11])
-    v = util.validate_trace(ctx, "Trace_C12", events, ntraces=len(events), timeout=3000)
+    hard = hard_events(ctx, util.rng(ctx, 1212), quick)
+    ctx.note("hardening_events", len(hard))
+    events = events + hard
+    v = validate_chunks(ctx, events, 4 if quick else 12)
     ctx.case(n=len(events))
     ctx.sample({"machine": "Trace_C12", "events": [events[0], [e for e in events if e["op"] == "SS"][1]]})
     trace_verdicts(ctx, events, v, known)
